@@ -730,8 +730,8 @@ fn run_scenario(t: &mut Trace, workroot: &Path, sc: &Value, src: &str, keep_dirs
 
 fn random_scenario(r: &mut impl Rng, id: i64) -> Value {
     // [C19-2] a second port range that OVERLAPS the first across kinds within one batch is a scenario class of its own
-    // (enabled by VERIF_ENABLE_CROSSKIND_PORTS=1, see the report of builder B9)
-    let crosskind = std::env::var("VERIF_ENABLE_CROSSKIND_PORTS").map(|v| v == "1").unwrap_or(false);
+    // (the unchanged tree accepted it and let two services record one port: fixed in /repo by 65feffc)
+    let crosskind = true;
     let len = r.gen_range(3..=12);
     let mut steps = vec![];
     let mut nsvc = 0u64; // upper bound on registry length (adds may fail)
